@@ -44,7 +44,7 @@ Sp(nm, b) == EncGearSpecial(RowOf(GearSpecial102, nm), b)
 Std(nm, dest) == EncGearStd(RowOf(Gear102, nm), dest, 0)
 
 InitBus(c) == [gear |-> [k \in 1..Len(c.shorts) |->
-                           [short |-> c.shorts[k], rand |-> 0, init |-> "DISABLED", storeOK |-> c.storeOK[k],
+                           [short |-> c.shorts[k], rand |-> 0, init |-> "DISABLED", storeOK |-> c.storeOK[k], stuckdel |-> FALSE,
                             groups |-> {}, dts |-> <<>>, dtpos |-> 0]],
                search |-> 0, dtr0 |-> 0]
 
